@@ -532,6 +532,15 @@ carquet_column_reader_t* carquet_reader_get_column(
     int32_t schema_idx = reader->schema->leaf_indices[column_index];
     const parquet_schema_element_t* schema_elem = &reader->schema->elements[schema_idx];
 
+    /* Callers size their value buffers from the schema: a chunk that stores a
+     * different physical type than the schema declares cannot be read */
+    if (!schema_elem->has_type || col_reader->col_meta->type != schema_elem->type) {
+        free(col_reader);
+        CARQUET_SET_ERROR(error, CARQUET_ERROR_TYPE_MISMATCH,
+            "Column %d: chunk type does not match schema type", column_index);
+        return NULL;
+    }
+
     col_reader->max_def_level = reader->schema->max_def_levels[column_index];
     col_reader->max_rep_level = reader->schema->max_rep_levels[column_index];
     col_reader->type = col_reader->col_meta->type;
